@@ -382,20 +382,59 @@ def rule_r5(chk):
         and not any(k.arg == "reverse" for k in r.keywords)
     chk.ob("C01-R5", "incidences.main.sort_tokens", ok, f"key = {unparse(key.body) if isinstance(key, ast.Lambda) else '?'}", im.loc(st))
     dm = chk.repo.mod(DSC)
-    nf = dm.func("_get_num_forwards")
-    chk.saw(dm, "_get_num_forwards")
-    try:
-        cnt = [fin.ev(single_return(nf), {params(nf)[0]: [type("T", (), {"shift": s})() for s in sh]}, funcs={}) for sh in ([1, 0, -1], [2, 1, 1, 0], [0, -1])]
-    except fin.NotFinite:
-        cnt = None
-    src = squash(single_return(nf))
-    ok = "ift.shift>0" in src and src.startswith("sum(")
-    chk.ob("C01-R5", "fords.descriptors._get_num_forwards", ok, "number of tokens with shift > 0", dm.loc(nf))
+    class _Tk(fin.FinObj):
+        def __init__(self, qid, shift):
+            super().__init__(qid=qid, shift=shift)
+        def shifted(self, by):
+            return _Tk(self.qid, self.shift + by)
+        def __eq__(self, o):
+            return isinstance(o, _Tk) and (self.qid, self.shift) == (o.qid, o.shift)
+        def __hash__(self):
+            return hash((self.qid, self.shift))
+        def __repr__(self):
+            return f"x{self.qid}{{{self.shift}}}"
+    helpers = fin.module_funcs(dm, dict(fin.STDLIB_FUNCS, Token=_Tk, **{
+        "_incidence.get_some_shift_by_quantities": lambda toks, something: {q_: something([t.shift for t in toks if t.qid == q_]) for q_ in sorted({t.qid for t in toks})},
+        "_incidence.sort_tokens": lambda toks: sorted(toks, key=lambda t: (-t.shift, t.qid))}))
+    vectors = ([(0, 1), (0, 0), (1, 0), (0, -1)], [(0, 2), (0, 1), (1, 1), (0, 0), (1, 0)], [(0, 0), (1, 0), (1, -1)], [(0, 0)], [])
+    for fname, want_fn, text in (("_get_num_forwards", lambda v: sum(1 for _, s_ in v if s_ > 0), "number of tokens with shift > 0"),
+                                 ("_get_num_backwards", lambda v: sum(1 for _, s_ in v if s_ <= 0), "backward = all - forward")):
+        g_ = dm.func(fname)
+        chk.saw(dm, fname)
+        try:
+            bad = next((f"{fname}({v}) = {got}, expected {want_fn(v)}" for v in vectors
+                        for got in [helpers[fname](tuple(_Tk(*x) for x in v))] if got != want_fn(v)), None)
+            chk.ob("C01-R5", f"fords.descriptors.{fname}", bad is None, bad or text, dm.loc(g_), sure=True)
+        except (fin.NotFinite, fin.Raised, TypeError, AttributeError) as ex:
+            chk.undecided("C01-R5", f"fords.descriptors.{fname}", f"not finitely evaluable: {ex}", dm.loc(g_))
     sv = dm.func("_solution_vector_from_system_vector")
     chk.saw(dm, "_solution_vector_from_system_vector")
-    ps = params(sv)
-    ok = squash(assign_value(sv, "num_forwards")) == f"_get_num_forwards({ps[0]})" and squash(single_return(sv)) == f"(tuple({ps[0]}[num_forwards:]),tuple({ps[1]}[num_forwards:]))"
-    chk.ob("C01-R5", "fords.descriptors._solution_vector_from_system_vector", ok, "drops exactly num_forwards leading entries from the vector and its initial flags", dm.loc(sv))
+    try:
+        bad = None
+        for v in vectors[:4]:
+            toks = tuple(_Tk(*x) for x in v)
+            flags = tuple(i % 2 == 0 for i in range(len(v)))
+            got = helpers["_solution_vector_from_system_vector"](toks, flags)
+            k = sum(1 for _, s_ in v if s_ > 0)
+            if (tuple(got[0]), tuple(got[1])) != (toks[k:], flags[k:]):
+                bad = f"system vector {list(toks)}: returns {got}, expected the vector and its flags without the {k} leading forward-looking entries"
+                break
+        chk.ob("C01-R5", "fords.descriptors._solution_vector_from_system_vector", bad is None, bad or "drops exactly num_forwards leading entries from the vector and its initial flags", dm.loc(sv), sure=True)
+    except (fin.NotFinite, fin.Raised, TypeError, AttributeError, IndexError) as ex:
+        chk.undecided("C01-R5", "fords.descriptors._solution_vector_from_system_vector", f"not finitely evaluable: {ex}", dm.loc(sv))
+    cvf = dm.func("_create_system_transition_vector")
+    chk.saw(dm, "_create_system_transition_vector")
+    try:
+        bad = None
+        for toks in ([(0, 0), (0, -2), (1, 1), (1, 0)], [(0, 0), (1, 0), (1, 2)], [(0, -1), (0, -3), (2, 0)], [(3, 1), (3, -1)]):
+            got = sorted((t.qid, t.shift) for t in helpers["_create_system_transition_vector"]({_Tk(*x) for x in toks}))
+            want = sorted((q_, s_) for q_ in {q for q, _ in toks} for s_ in range(min(min(s for q, s in toks if q == q_), -1) + 1, max(s for q, s in toks if q == q_) + 1))
+            if got != want:
+                bad = f"tokens {toks}: vector {got}, expected each variable at shifts min(min_shift, -1)+1 .. max_shift: {want}"
+                break
+        chk.ob("C01-R5", "fords.descriptors._create_system_transition_vector", bad is None, bad or "each variable contributes shifts min_shift+1 .. max_shift", dm.loc(cvf), sure=True)
+    except (fin.NotFinite, fin.Raised, TypeError, AttributeError, KeyError) as ex:
+        chk.undecided("C01-R5", "fords.descriptors._create_system_transition_vector", f"not finitely evaluable: {type(ex).__name__}: {ex}", dm.loc(cvf))
     sm = chk.repo.mod(SOL)
     me = sm.func("_solve_measurement_equations")
     g = assign_value(me, "G")
@@ -404,13 +443,6 @@ def rule_r5(chk):
     te = sm.func("_solve_transition_equations")
     ok = squash(assign_value(te, "num_stable")) == "num_backwards" and squash(assign_value(te, "num_backwards")) == "descriptor.get_num_backwards()"
     chk.ob("C01-R5", "fords.solutions._solve_transition_equations[num_stable]", ok, "the stable block has one column per backward-looking variable", sm.loc(te))
-    nb = dm.func("_get_num_backwards")
-    ok = squash(single_return(nb)) == f"len({params(nb)[0]})-_get_num_forwards({params(nb)[0]})"
-    chk.ob("C01-R5", "fords.descriptors._get_num_backwards", ok, "backward = all - forward", dm.loc(nb))
-    cv = dm.func("_create_system_transition_vector.list_for_qid")
-    src = squash(cv)
-    ok = "Token(qid,sh)forshinrange(min_shifts[qid]+1,max_shifts[qid]+1)" in src
-    chk.ob("C01-R5", "fords.descriptors._create_system_transition_vector", ok, "each variable contributes shifts min_shift+1 .. max_shift", dm.loc(cv))
     ct = calls_to(dm.func("SystemVectors.__init__"), "_incidence.sort_tokens")
     ok = any("_create_system_transition_vector" in squash(c) for c in ct)
     chk.ob("C01-R5", "fords.descriptors.SystemVectors.__init__[sorted]", ok, "the system transition vector is sorted with sort_tokens", dm.rel)
